@@ -139,7 +139,7 @@ def gen_value_tok(rng, kinds, heavy_ok):
     """-> (token, is_numeric, text_may_start_with_space)"""
     k = rng.choice(kinds)
     if k == 's':
-        return '$s' + hexs(gen_bytes(rng, 200 if heavy_ok else 30)), False, False
+        return '$s' + hexs(gen_bytes(rng, 200)), False, False
     if k == 'i':
         return '$i%d' % gen_int(rng, I64MIN, I64MAX), True, False
     if k == 'f':
@@ -532,12 +532,38 @@ def run(ctx):
     for i in range(0, nraw, 2000):
         d.feed(raw[i:i + 2000], 'raw')
     ctx.cov['raw_scanner_cases'] = nraw
+    if not quick:
+        # the same streams under AddressSanitizer: any write outside an allocation (String_Format_To,
+        # String_Concat inside String_Look, the scanner's stores) ends the child and shows as a missing transcript
+        try:
+            ctx.build_lib(tag='asan', cflags=['-fsanitize=address', '-fno-omit-frame-pointer'])
+            ha = ctx.build_harness('roundtrip.c', tag='asan', extra=['-fsanitize=address'])
+            env = dict(os.environ, ASAN_OPTIONS='detect_leaks=0:abort_on_error=1')
+            run_plain = d.run_impl
+            d.run_impl = lambda cs: ctx.run_lines(ha, cs, args=[ctx.tmp], env=env)[1]
+            sub = CORPUS + cases[:6000] + raw[:3000]
+            for i in range(0, len(sub), 1000):
+                d.feed(sub[i:i + 1000], 'asan')
+            d.run_impl = run_plain
+            ctx.cov['asan_cases'] = len(sub)
+        except vlib.BuildError as e:
+            ctx.notes.append('ASan build not available: %s' % str(e)[-300:])
     hist = {}
     for c in cases:
         for t in parse_case(c)[4]:
             k = t[0] + (t[1] if t[0] == '$' else '')
             hist[k] = hist.get(k, 0) + 1
     ctx.cov['token_histogram'] = hist
+    nv, sl = {}, {}
+    for c in cases:
+        vs = [i for i in map(tok_info, parse_case(c)[4]) if i[0] == 'v']
+        nv[len(vs)] = nv.get(len(vs), 0) + 1
+        for v in vs:
+            if v[1] == 's':
+                b = min(len(v[2]) // 10 * 10, 100)
+                sl['%d-%d' % (b, b + 9) if b < 100 else '100+'] = sl.get('%d-%d' % (b, b + 9) if b < 100 else '100+', 0) + 1
+    ctx.cov['values_per_case'] = nv
+    ctx.cov['string_lengths'] = sl
     ctx.cov['sources'] = {'String': sum(1 for c in cases if c[0] == 'S'), 'File': sum(1 for c in cases if c[0] == 'F')}
 
     def extra(dd):
